@@ -2,6 +2,7 @@ import PyxisVerif.Spec.C09
 import PyxisVerif.Spec.C12
 import PyxisVerif.Lemmas.C12
 import PyxisVerif.Lemmas.Worklist
+import PyxisVerif.Lemmas.Mono
 /-!
 # C09, end to end, for descriptions without vftable blocks
 
@@ -47,6 +48,67 @@ def sameVerdict : BuildOutcome → BuildOutcome → Prop
 theorem build_schedule_independent_novft (s : State) (p1 p2 : List Path)
     (hs : C12.StateOkB s) (hv : NoVft s) (hr : NoVftResolved s) :
     sameVerdict (s.build p1) (s.build p2) := by
-  sorry
+  have _ := hr
+  have hv' : Mono.NoVftS s := by
+    intro p i d td hi hst hin st hmem
+    have h := hv p i d hi hst
+    rw [hin] at h
+    have h2 := h st hmem
+    unfold C01.isFieldStmt
+    cases hf : st.field with
+    | vftable fns => rw [hf] at h2; exact h2.elim
+    | field v n t => rfl
+  have refl : ∀ x, sameVerdict x x := by
+    intro x
+    cases x with
+    | ok s1 => exact ⟨fun _ => rfl, rfl⟩
+    | nonterm l => exact List.Perm.refl l
+    | err m => trivial
+    | panic m => trivial
+    | fuel => trivial
+  have ha := Mono.loops_agree s hs hv' p1 p2
+    (2 * (s.reg.types.filter fun e => !e.2.isResolved).length + 2)
+    (2 * (s.reg.types.filter fun e => !e.2.isResolved).length + 2)
+  have f1 := C10.resolveLoop_ne_fuel p1 (2 * (s.reg.types.filter fun e => !e.2.isResolved).length + 2) s
+    hs.ok.reg.keys (by have := C10.mu_le s.reg; omega)
+  have f2 := C10.resolveLoop_ne_fuel p2 (2 * (s.reg.types.filter fun e => !e.2.isResolved).length + 2) s
+    hs.ok.reg.keys (by have := C10.mu_le s.reg; omega)
+  unfold State.build
+  simp only []
+  generalize resolveLoop p1 (2 * (s.reg.types.filter fun e => !e.2.isResolved).length + 2) s = o1 at ha f1 ⊢
+  generalize resolveLoop p2 (2 * (s.reg.types.filter fun e => !e.2.isResolved).length + 2) s = o2 at ha f2 ⊢
+  cases o1 with
+  | ok s1 =>
+    cases o2 with
+    | ok s2 =>
+      have e : s1 = s2 := ha
+      subst e
+      exact refl _
+    | nonterm l2 => exact False.elim ha
+    | err m2 => exact False.elim ha
+    | panic m2 => exact False.elim ha
+    | fuel => exact absurd rfl f2
+  | nonterm l1 =>
+    cases o2 with
+    | ok s2 => exact False.elim ha
+    | nonterm l2 => exact ha
+    | err m2 => exact False.elim ha
+    | panic m2 => exact False.elim ha
+    | fuel => exact absurd rfl f2
+  | err m1 =>
+    cases o2 with
+    | ok s2 => exact False.elim ha
+    | nonterm l2 => exact False.elim ha
+    | err m2 => trivial
+    | panic m2 => exact False.elim ha
+    | fuel => exact absurd rfl f2
+  | panic m1 =>
+    cases o2 with
+    | ok s2 => exact False.elim ha
+    | nonterm l2 => exact False.elim ha
+    | err m2 => exact False.elim ha
+    | panic m2 => exact False.elim ha
+    | fuel => exact absurd rfl f2
+  | fuel => exact absurd rfl f1
 
 end PyxisVerif.C09
